@@ -97,7 +97,7 @@ func Glob(pattern string) ([]string, error) {
 					} else {
 						p += name
 					}
-					if _, err := os.Lstat(p); err == nil {
+					if _, err := os.Lstat(p); err == nil && (sep == "" || isDir(p)) {
 						matches = append(matches, p+sep)
 					}
 				}
@@ -112,7 +112,9 @@ func Glob(pattern string) ([]string, error) {
 						if p != "." {
 							name = p + name
 						}
-						matches = append(matches, name+sep)
+						if sep == "" || isDir(name) {
+							matches = append(matches, name+sep)
+						}
 					})
 					if err != nil {
 						return nil, err
@@ -165,6 +167,12 @@ func glob(path string, rx *regexp.Regexp, fn func(string)) error {
 			}
 		}
 	}
+}
+
+// isDir reports whether path is a directory, following symbolic links.
+func isDir(path string) bool {
+	fi, err := os.Stat(path)
+	return err == nil && fi.IsDir()
 }
 
 func unquote(s string) (string, bool) {
